@@ -248,8 +248,11 @@ func main() {
 				return nil
 			})
 		}
-		// c.N = number of states in total, split between the two subsystems
-		nTx, nMgr := c.N/2, c.N-c.N/2
+		// c.N = number of states in total; a manager state costs about ten
+		// times a store state (every fresh manager derives its keys), so a
+		// quarter of the states are manager states
+		nMgr := (c.N + 3) / 4
+		nTx := c.N - nMgr
 		switch kind {
 		case "tx":
 			nTx, nMgr = c.N, 0
